@@ -30,7 +30,7 @@ Section LoopProofs.
       destruct (IH (b + 1) ia) as [Hle Hall]. split; [lia|].
       intros b' Hb' oa Hoa. destruct (Z.eq_dec b' b) as [->|Hne].
       + rewrite Hp in Hoa. injection Hoa as <-. exact Hm.
-      + apply Hall; [lia | exact Hoa].
+      + apply (Hall b'); [lia | exact Hoa].
   Qed.
 
   Lemma outer_spec n : forall f bd,
